@@ -33,6 +33,7 @@ type request struct {
 	names []string    // introspect: probed names
 	chain []chainNode // chain
 	tags  []string
+	sdoc  *sdocument // sdoc
 }
 
 func (rq *request) observe(s *side) sexp.Node {
@@ -44,6 +45,8 @@ func (rq *request) observe(s *side) sexp.Node {
 		return sexp.L(o.sexp(true, false))
 	case "chain":
 		return sexp.L(o.sexp(true, false), sexp.T("lines", o.errorLines().List...), sexp.T("final", o.chainFinal(chainKeys(rq.chain))))
+	case "sdoc":
+		return sexp.L(o.sexp(true, false), sexp.T("lines", o.errorLines().List...), o.tree(rq.sdoc.tkeys))
 	}
 	return sexp.L(o.sexp(true, false))
 }
@@ -56,6 +59,8 @@ func (rq *request) sexp(a, b *side) sexp.Node {
 	case "stdintro": // the query text is introspection.Query
 	case "chain":
 		items = append(items, sexp.T("query", sexp.Str(rq.query)), sexp.T("chain", chainSexp(rq.chain).List...))
+	case "sdoc":
+		items = append(items, sexp.T("query", sexp.Str(rq.query)), rq.sdoc.sexp())
 	case "doc":
 		items = append(items, sexp.T("query", sexp.Str(rq.query)), sexp.T("vars", sexp.Str(varsJSON(rq.vars))), sexp.T("tags", strs(rq.tags)...))
 	}
@@ -123,10 +128,11 @@ func runCase(kind, note string, d *desc, F []string, mk func() []*request) sexp.
 }
 
 // the apifu route (see apifu.go)
-func runApifuCase(F []string, ws bool) sexp.Node {
+func runApifuCase(F []string, route string) sexp.Node {
+	ws := route == "graphql-ws" || route == "graphql-transport-ws"
 	d := apifuDesc()
 	e := erase(d, F)
-	head := []sexp.Node{sexp.T("kind", sexp.Sym("apifu")), sexp.T("note", sexp.Str(map[bool]string{false: "http", true: "graphql-ws"}[ws])), d.sexp(), sexp.T("features", strs(F)...),
+	head := []sexp.Node{sexp.T("kind", sexp.Sym("apifu")), sexp.T("note", sexp.Str(route)), d.sexp(), sexp.T("features", strs(F)...),
 		sexp.T("all", strs(alphabet)...)}
 	on := subset([]string{"fa"}, F)
 	all := graphql.NewFeatureSet(alphabet...)
@@ -140,10 +146,10 @@ func runApifuCase(F []string, ws bool) sexp.Node {
 	if err != nil {
 		return sexp.T("case", append(head, sexp.T("erased-rejected", sexp.Str(err.Error())))...)
 	}
-	a := &side{api: apiA, features: graphql.NewFeatureSet(F...), log: logA}
-	b := &side{api: apiB, features: all, log: logB}
+	a := &side{api: apiA, features: graphql.NewFeatureSet(F...), log: logA, persisted: route == "http-persisted"}
+	b := &side{api: apiB, features: all, log: logB, persisted: route == "http-persisted"}
 	if ws {
-		a.ws, b.ws = openWS(apiA, a.features), openWS(apiB, b.features)
+		a.ws, b.ws = openWS(apiA, a.features, route), openWS(apiB, b.features, route)
 		defer a.ws.close()
 		defer b.ws.close()
 	}
@@ -169,7 +175,7 @@ func runApifuCase(F []string, ws bool) sexp.Node {
 		}
 		c := &side{api: apiC, features: all, log: logC}
 		if ws {
-			c.ws = openWS(apiC, all)
+			c.ws = openWS(apiC, all, route)
 			defer c.ws.close()
 		}
 		o := c.run("{ __schema { types { name } } }", nil)
@@ -186,7 +192,7 @@ func runApifuCase(F []string, ws bool) sexp.Node {
 	return sexp.T("case", head...)
 }
 
-func randomRequests(r *rng.R, d *desc, std bool, nChains, nDocs int) []*request {
+func randomRequests(r *rng.R, d *desc, std bool, nChains, nDocs, nSdocs int) []*request {
 	names := probeNames(d)
 	reqs := []*request{{kind: "introspect", query: probeQuery(names), names: names}}
 	if std {
@@ -199,6 +205,10 @@ func randomRequests(r *rng.R, d *desc, std bool, nChains, nDocs int) []*request 
 	for i := 0; i < nDocs; i++ {
 		q, vars, tags := genDoc(r, d)
 		reqs = append(reqs, &request{kind: "doc", query: q, vars: vars, tags: tags})
+	}
+	for i := 0; i < nSdocs; i++ {
+		sd := genSdoc(r, d)
+		reqs = append(reqs, &request{kind: "sdoc", query: sd.text, sdoc: sd})
 	}
 	return reqs
 }
@@ -230,7 +240,7 @@ func main() {
 				h.Case(func(r *rng.R) sexp.Node {
 					d := w.make()
 					return runCase("witness", w.name, d, F, func() []*request {
-						reqs := randomRequests(r, d, true, 4, 3)
+						reqs := randomRequests(r, d, true, 4, 3, 6)
 						for _, c := range w.chains {
 							reqs = append(reqs, &request{kind: "chain", query: chainText(c), chain: c})
 						}
@@ -270,8 +280,8 @@ func main() {
 		// 1b. the apifu route: Config.Features plumbing, a gated apifu.Connection
 		for _, F := range subsetsOf([]string{"fa", "fb"}) {
 			F := F
-			h.Case(func(*rng.R) sexp.Node { return runApifuCase(F, false) })
-			h.Case(func(*rng.R) sexp.Node { return runApifuCase(F, true) })
+			h.Case(func(*rng.R) sexp.Node { return runApifuCase(F, "http") })
+			h.Case(func(*rng.R) sexp.Node { return runApifuCase(F, "graphql-ws") })
 		}
 		// 2. random schemas obeying the construction rules
 		n, nh := 1500, 1800
@@ -283,7 +293,7 @@ func main() {
 			h.Case(func(r *rng.R) sexp.Node {
 				d := genDesc(r)
 				F := randSubset(r, alphabet)
-				return runCase("random", "", d, F, func() []*request { return randomRequests(r, d, i%6 == 0, 6, 5) })
+				return runCase("random", "", d, F, func() []*request { return randomRequests(r, d, i%6 == 0, 6, 5, 4) })
 			})
 		}
 		// 3. hostile stream: one edit aimed at a construction rule
@@ -296,8 +306,16 @@ func main() {
 				}
 				d.completeAdditional()
 				F := randSubset(r, alphabet)
-				return runCase("hostile", what, d, F, func() []*request { return randomRequests(r, d, false, 2, 2) })
+				return runCase("hostile", what, d, F, func() []*request { return randomRequests(r, d, false, 2, 2, 2) })
 			})
+		}
+		// 4. the other routes of the feature-set plumbing: a persisted query registered by a request
+		// with every feature and replayed by hash with F (api.go, PersistedQueryExtension), and the
+		// graphql-transport-ws subprotocol of ServeGraphQLWS
+		for _, F := range subsetsOf([]string{"fa", "fb"}) {
+			F := F
+			h.Case(func(*rng.R) sexp.Node { return runApifuCase(F, "http-persisted") })
+			h.Case(func(*rng.R) sexp.Node { return runApifuCase(F, "graphql-transport-ws") })
 		}
 	})
 }
